@@ -19,7 +19,7 @@ func init() {
 		ID: "C02",
 		Rule: "per-operation gradient monitor: one application y = op(operands; args) on fresh leaves, BackPropagate(y*G) with a random non-uniform untracked weighting G, then every operand's Gradient() is compared (nil-ness, shape, finiteness, value) with the analytic vector-Jacobian product of the reference model; 1 case in 25 is cross-checked against central differences of the REAL forward function. " +
 			"Enumerated: the 33 operations x every valid operand shape of rank 0..R (sizes 1..3; R=3 exhaustive + sampled rank 4-5 in quick, R=5 exhaustive in thorough) x every valid dim x exponents {-2,-1,-0.5,0,0.5,1,2,3,2.5} x index forms (every index list for rank <= 2, sampled above; Patch every source size/position for rank <= 2) x every non-empty subset of tracked operands; named boundary points: Pow at base 0 with exponents 0,1,2,3, Var/StdAlong over a dimension of size 1. Operands need no implicit expansion here (that is C07). " +
-			"Non-trivial: the operand gradient has >= 2 elements or the op takes >= 2 operands; distinct = (op, shapes, argument form, tracked subset). Later additions: sampled shapes with sizes up to 7 and single sizes 31..129; groups of different same-rank shapes that collide under ad-hoc cache keys, run back-to-back in one case; the same tracked tensor as both operands; distinct values of magnitude 1e-30 for Max/Min/ElMax/ElMin; Div with operands of magnitude 1e-170..1e-200; every fifth upstream weighting is small integers that cancel to exactly 0.",
+			"Non-trivial: the operand gradient has >= 2 elements or the op takes >= 2 operands; distinct = (op, shapes, argument form, tracked subset). Later additions: sampled shapes with sizes up to 7 and single sizes 31..129; groups of different same-rank shapes that collide under ad-hoc cache keys, run back-to-back in one case; the same tracked tensor as both operands; distinct values of magnitude 1e-30 for Max/Min/ElMax/ElMin; Std/Var/Avg/SumAlong on values scaled by 1e-13, 1e-30, 1e-100, 1e80; Div with operands of magnitude 1e-170..1e-200; every fifth upstream weighting is small integers that cancel to exactly 0.",
 		Assumptions: []string{
 			"operand values are unique per position and kept >= 1e-3 away from non-differentiable points (ties of Max/Min/ElMax/ElMin, zero divisors, Log/fractional Pow of non-positive values, Tan poles, zero standard deviation), except the boundary points the statement names",
 			"gradient comparison: |r-e| <= 1e-10*(1+max|e|) + 1e-9*max(|r|,|e|)",
@@ -264,6 +264,25 @@ func runC02(c *fw.Ctx) {
 					}
 					return ref.Instr{Op: op, Dim: k.Rng.Intn(len(shape))}, []*ref.T{x}
 				}, 1)
+			}
+		}
+		// Var/Std (and the linear reducers) at distinct values of tiny and of huge magnitude: the standard deviation of a fibre is
+		// then far below any "epsilon" (or far above 1) while its derivative (x - mean)/((n-1) std) stays of order 1
+		if len(shape) >= 1 {
+			for _, op := range []string{"stdalong", "varalong", "avgalong", "sumalong"} {
+				for _, scale := range []float64{1e-13, 1e-30, 1e-100, 1e80} {
+					if op != "stdalong" && scale < 1 {
+						continue // their gradients would sit below the absolute tolerance
+					}
+					op, scale := op, scale
+					one(fmt.Sprintf("%s/%s/scale%g", op, sk, scale), func(k *fw.K) (ref.Instr, []*ref.T) {
+						x := UniqueInts(k.Rng, shape)
+						for i := range x.Data {
+							x.Data[i] *= scale
+						}
+						return ref.Instr{Op: op, Dim: k.Rng.Intn(len(shape))}, []*ref.T{x}
+					}, 1)
+				}
 			}
 		}
 		for _, op := range []string{"elmax", "elmin"} {
